@@ -238,3 +238,26 @@ def load_known_findings():
     if not os.path.exists(p):
         return {"findings": [], "fixed": []}
     return json.load(open(p))
+
+
+def corpus_cases(pid):
+    """cases that run before the random ones on every run: the witness of every listed known finding of the property
+    (so its KNOWN-FINDING line is printed whenever the finding is still there) and the minimized past failures kept
+    under /verif/corpus/<pid>/*.json"""
+    out = []
+    for f in load_known_findings().get("findings", []):
+        w = f.get("witness") or {}
+        if f.get("property") == pid and w.get("yaml"):
+            c = {"id": "kf-" + f["id"], "seed": 1, "stream": "valid", "opts": [], "mode": "normal", "version_comment": False, "link": True,
+                 "doc": json.loads(w["yaml"])}
+            c.update(w.get("case") or {})
+            out.append(c)
+    d = os.path.join(VERIF, "corpus", pid)
+    if os.path.isdir(d):
+        for n in sorted(os.listdir(d)):
+            if n.endswith(".json"):
+                c = json.load(open(os.path.join(d, n)))
+                c = c.get("case", c)
+                c["id"] = "corpus-" + n[:-5]
+                out.append(c)
+    return out
